@@ -65,7 +65,7 @@ def alSet {α} : List (Name × α) → Name → α → List (Name × α)
 
 def alDel {α} : List (Name × α) → Name → List (Name × α)
   | [], _ => []
-  | (k, v) :: r, c => if k = c then r else (k, v) :: alDel r c
+  | (k, v) :: r, c => if k = c then alDel r c else (k, v) :: alDel r c
 
 def Tree.child : Tree → Name → Option Tree
   | .dir _ _ es, c => alGet es c
